@@ -46,5 +46,9 @@ def pre_sbs(VERIF):
         gen.sh(["clang++-14", "-std=gnu++20", "-O1", "-fno-vectorize", "-fno-slp-vectorize", "-fno-unroll-loops", "-DNDEBUG"] + incs +
                ["-S", "-emit-llvm", "-o", ll, os.path.join(repo, "acquire-driver-common/src/storage/side-by-side-tiff.cpp")])
         gen.sh([sys.executable, os.path.join(VERIF, "ir2c", "ir2c.py"), ll, c] + SBS_WANT)
+        # the composite object is handed out by the harness as a TYPED static object (see tiff_file.c)
+        txt = open(c).read()
+        assert "malloc(496ULL)" in txt, "size of struct SideBySideTiff changed: update struct sbs in the harness"
+        open(c, "w").write(txt.replace("malloc(496ULL)", "verif_sbs_alloc(496ULL)").replace("#include <stdlib.h>", "#include <stdlib.h>\nchar* verif_sbs_alloc(uint64_t);"))
         h.generated = h.generated + ["sbs_gen.c"]
     return pre
